@@ -218,7 +218,9 @@ func (server *SugarDB) getValues(ctx context.Context, keys []string) map[string]
 	}
 
 	// Asynchronously update the keys in the cache.
+	verif.Point("async.spawn")
 	go func(ctx context.Context, keys []string) {
+		defer verif.Point("async.end")
 		if _, err := server.updateKeysInCache(ctx, keys); err != nil {
 			log.Printf("getValues error: %+v\n", err)
 		}
@@ -278,7 +280,9 @@ func (server *SugarDB) setValues(ctx context.Context, entries map[string]interfa
 	}
 
 	// Asynchronously update the keys in the cache.
+	verif.Point("async.spawn")
 	go func(ctx context.Context, entries map[string]interface{}) {
+		defer verif.Point("async.end")
 		for key, _ := range entries {
 			_, err := server.updateKeysInCache(ctx, []string{key})
 			if err != nil {
@@ -312,7 +316,9 @@ func (server *SugarDB) setExpiry(ctx context.Context, key string, expireAt time.
 
 	// If touch is true, update the keys status in the cache.
 	if touch {
+		verif.Point("async.spawn")
 		go func(ctx context.Context, key string) {
+			defer verif.Point("async.end")
 			_, err := server.updateKeysInCache(ctx, []string{key})
 			if err != nil {
 				log.Printf("setExpiry error: %+v\n", err)
@@ -519,6 +525,7 @@ func (server *SugarDB) adjustMemoryUsage(ctx context.Context) error {
 			}
 
 			key := heap.Pop(server.lfuCache.cache[database]).(string)
+			verif.Point("evict", database, key, "lfu", server.memUsed)
 			if !server.isInCluster() {
 				// If in standalone mode, directly delete the key
 				if err := server.deleteKey(ctx, key); err != nil {
@@ -552,6 +559,7 @@ func (server *SugarDB) adjustMemoryUsage(ctx context.Context) error {
 			}
 
 			key := heap.Pop(server.lruCache.cache[database]).(string)
+			verif.Point("evict", database, key, "lru", server.memUsed)
 			if !server.isInCluster() {
 				// If in standalone mode, directly delete the key.
 				if err := server.deleteKey(ctx, key); err != nil {
@@ -588,6 +596,7 @@ func (server *SugarDB) adjustMemoryUsage(ctx context.Context) error {
 				if db == database {
 					for key, _ := range data {
 						if idx == 0 {
+							verif.Point("evict", database, key, "allkeys-random", server.memUsed)
 							if !server.isInCluster() {
 								// If in standalone mode, directly delete the key
 								if err := server.deleteKey(ctx, key); err != nil {
@@ -622,6 +631,7 @@ func (server *SugarDB) adjustMemoryUsage(ctx context.Context) error {
 			idx := rand.Intn(len(server.keysWithExpiry.keys))
 			key := server.keysWithExpiry.keys[database][idx]
 			server.keysWithExpiry.rwMutex.RUnlock()
+			verif.Point("evict", database, key, "volatile-random", server.memUsed)
 
 			if !server.isInCluster() {
 				// If in standalone mode, directly delete the key
